@@ -15,7 +15,7 @@ checks = {
    note="bounded: 2-3 threads, P<=2 (quick) / P<=3 (thorough), F<=1/2; the maximal-progress virtual clock encodes the premise that live holders renew in time; in-memory storage, plus a family over the Redis backend (miniredis, command-level scheduling points, no cancellable contexts because go-redis runs those commands on its own goroutine); the cooperative scheduler cannot see data races: a separate free-running -race audit of distlock (time-boxed, supplementary) audits that assumption"),
  "C03": dict(engine="Q", cat="model_checking", tech=Q,
    text="all sequences of Storage operations over 3 keys / small value, expiry, version-kind and pattern alphabets to a fixpoint of the canonical model state; in-memory and Redis (miniredis) backends driven in lock-step and compared with a reference model after every operation",
-   note="trusted: miniredis behaves like Redis for SETNX/WATCH/MULTI/EXEC/MSET/PX/SCAN; version strings abstracted to tokens (only compared for equality by both backends); one known finding (leading '/' stripped by the Redis backend, several signatures) is reported as KNOWN-FINDING and does not cut the exploration (the aliased key is no longer observed on that backend for the rest of the history); patterns include the gobwas/glob forms {a,b} and [!a] that Redis MATCH does not share; a second small search covers the empty key; every listing is made with a second live iterator; one long history over 21 near-identical keys; a GetMany of 70 keys; the state key contains the complete in-memory implementation state (deepdump)"),
+   note="trusted: miniredis behaves like Redis for SETNX/WATCH/MULTI/EXEC/MSET/PX/SCAN; version strings abstracted to tokens (only compared for equality by both backends); one known finding (leading '/' stripped by the Redis backend, several signatures) is reported as KNOWN-FINDING and does not cut the exploration (the aliased key is no longer observed on that backend for the rest of the history); patterns include the gobwas/glob forms {a,b} and [!a] that Redis MATCH does not share; a second small search covers the empty key; every listing is made with a second live iterator; one long history over 21 near-identical keys; a GetMany of 70 keys; deterministic PutMany/GetMany/ListKeys histories over 1..2049 keys (sizes around 64/128/256/1024/2048, reversed list, missing and repeated keys); the state key contains the complete in-memory implementation state (deepdump)"),
  "C06": dict(engine="Q+S", cat="model_checking", tech=Q + "; every transition runs inside one execution of the controlled scheduler so that time is virtual",
    text="all histories over 2 keys of writes with expiry none/short/long/sub-millisecond/9999-12-31/1000-01-01, clock steps, and every operation kind (incl. WaitForVersionChange) as first and later touch of an expired key, per backend, to a fixpoint; model deletes a record at its expiration instant; plus Engine-S families: 2-3 concurrent waiters on one expiring record with cancellers, a writer renewing the record at the instant it expires under 1-2 sleeping waiters, a waiter arriving within nanoseconds of the expiration instant, readers racing a writer on an expired untouched record (every order within P<=2)",
    note="virtual clock drives time.Now of the rewritten backends and miniredis' TTL clock; at most 3 clock steps per history; remaining lifetimes are bucketed (short/long) in the state key, sound because a clock step either expires every short record or no long one"),
@@ -38,7 +38,7 @@ checks = {
    text="every byte string of length <=3 over the full alphabet and <=8(10) over {00,01,7F,80,FF}, the family of long varint prefixes reaching 2^31/2^63/2^64-1, mutated valid encodings; oracle: no panic, n in range, result aliases the input (pointer range) or is a copy, n=0 on error",
    note="inputs longer than the bounds only through the structured families"),
  "C17": dict(engine="E+Q+S", cat="model_checking", tech=Q + " + " + S + " + exhaustive geometry enumeration",
-   text="geometry: every block size in [-2, 2*pagesize+1] x buffer sizes x fit flag; disjointness of all block/header ranges for small geometries; BFS over all alloc/free/Block histories on 8-16 blocks to a fixpoint with a copy+reopen+probe after every transition; short sequences over a real MMFile reopened by path; 2-3 threads under the controlled scheduler with a crash point (copy+reopen) after every operation of every schedule and linearizability of the call/return history against a sequential allocator (porcupine); every reopen is also drained to exhaustion",
+   text="geometry: every block size in [-2, 2*pagesize+1] x buffer sizes x fit flag; disjointness of all block/header ranges for small geometries; BFS over all alloc/free/Block histories on 8-16 blocks to a fixpoint with a copy+reopen+probe after every transition; depth-bounded BFS (4-6 operations) from two non-initial states (all blocks / first segment allocated) on block sizes 2,4 x 2-3 segments, whose full state space is out of reach; short sequences over a real MMFile reopened by path; 2-3 threads under the controlled scheduler with a crash point (copy+reopen) after every operation of every schedule and linearizability of the call/return history against a sequential allocator (porcupine); every reopen is also drained to exhaustion",
    note="msync/power-loss durability of the mapped file is not modelled (the property speaks of reopening the same bytes); concurrent part bounded by P<=3 (2 threads) / P<=2 (3 threads)"),
  "C18": dict(engine="Q", cat="model_checking", tech=Q,
    text="for every pair of sequences of length <=3(4) over 3 values, 5 selectors and 4 source kinds: all call patterns of HasNext/Next/Reset to a fixpoint of (selector state, look-ahead flags, positions); oracle: two-pointer reference merge",
